@@ -735,13 +735,13 @@ func (j *judgeCtx) checkSchemas(app *sysl.Application) {
 				have = append(have, k)
 			}
 			sort.Strings(have)
-			j.fail("missing-type:"+j.d.Format+":"+nameClass(s.Name), fmt.Sprintf("schema %q has no type in the compiled model (types: %q)", s.Name, have))
+			j.fail("missing-type:"+j.d.Format+":"+nameClass(s.Name)+":"+s.Kind, fmt.Sprintf("schema %q has no type in the compiled model (types: %q)", s.Name, have))
 			continue
 		}
 		switch s.Kind {
 		case "object":
-			if len(s.Props) == 0 && s.Base == "" {
-				continue // an empty object carries nothing to check
+			if len(s.Props) == 0 {
+				continue // an empty object (or a derived type that adds nothing: an alias of its base) carries nothing to check
 			}
 			var inh []prop
 			for b := s.Base; b != ""; b = byName[b].Base {
@@ -1001,7 +1001,7 @@ func mergeDoc(c *common.Ctx, d doc, o docObs, died, timedOut bool, stderr string
 		}
 		reported[cl] = true
 		wholeDoc := strings.HasPrefix(cl, "does-not-compile:") || strings.HasPrefix(cl, "import-fails:") || strings.HasPrefix(cl, "compile-panics:")
-		if wholeDoc {
+		if wholeDoc && strings.Count(docNameClasses(d), ",") > 0 {
 			// which names are to blame? one tiny document per odd name (cached)
 			found := false
 			for _, cu := range culprits(c, d, cl) {
@@ -1012,7 +1012,8 @@ func mergeDoc(c *common.Ctx, d doc, o docObs, died, timedOut bool, stderr string
 				continue
 			}
 		}
-		if wholeDoc || c.Res.Histogram["shrunk:"+cl] < 4 {
+		arrai := d.Format != "swagger" && d.Format != "xsd"
+		if !arrai && (wholeDoc || c.Res.Histogram["shrunk:"+cl] < 4) {
 			c.Hist("shrunk:" + cl)
 			if small, sf := shrink(c, d, cl, 150); sf[0] != "" {
 				c.Fail(sf[0], sf[1], small)
